@@ -13,14 +13,23 @@ def can_listener_function(v, wd, pid, can_observations, q):
             seg = o["outs"][i] if i < len(o["outs"]) else []
             frames = [xprog.frame_parse(bytes.fromhex(x), fd) for x in seg]
             by_mode.setdefault((udp, fd), []).append({"e": "dgram", "bytes": d if d else [0] * 0, "frames": frames, "ret": o["rets"][i] if i < len(o["rets"]) else 0})
-    n = 0
-    for (udp, fd), evs in sorted(by_mode.items()):
+    import concurrent.futures as cf
+    def one(item):
+        (udp, fd), evs = item
         evs = [e for e in evs if e["bytes"]]                              # (an empty JSON array has no element type for TLC)
+        vv = Verdict(pid, "quick", 0, v.level)
         cfg = ("SPECIFICATION TSpec\nCONSTANTS\n  Buf = {1}\n  Tscf = 0\n  Udp = %d\n  Fd = %d\n  Count = 1\nPOSTCONDITION TraceAccepted\nCHECK_DEADLOCK FALSE\n" % (udp, fd))
-        pdu.validate_events(v, wd, pdu.shard(evs, 2 if q else 4), pid, "can-listener-function-udp%d-fd%d" % (udp, fd), module="CanListenerTrace", cfg=cfg,
+        pdu.validate_events(vv, wd, pdu.shard(evs, 4), pid, "can-listener-function-udp%d-fd%d" % (udp, fd), module="CanListenerTrace", cfg=cfg,
                             keyfn=lambda e, a=None, b=None: "can-listener-function udp=%d fd=%d forwarded-frames-differ" % (udp, fd))
-        n += len(evs)
-        forwarding = [e for e in evs if e["frames"]]
-        v.cov.setdefault("can_listener_function", {})["udp=%d fd=%d" % (udp, fd)] = {"datagrams": len(evs), "forwarding": len(forwarding)}
+        return (udp, fd), evs, vv
+    n = 0
+    with cf.ThreadPoolExecutor(max_workers=4) as pool:
+        for (udp, fd), evs, vv in pool.map(one, sorted(by_mode.items())):
+            for k_, d_, r_ in vv.violations: v.violation(k_, d_, r_)
+            v.cov["states"] += vv.cov["states"]; v.cov["transitions"] += vv.cov["transitions"]
+            v.cov["traces_validated_against_impl"] += vv.cov["traces_validated_against_impl"]; v.cov["tlc_runs"] += vv.cov["tlc_runs"]
+            n += len(evs)
+            forwarding = [e for e in evs if e["frames"]]
+            v.cov.setdefault("can_listener_function", {})["udp=%d fd=%d" % (udp, fd)] = {"datagrams": len(evs), "forwarding": len(forwarding)}
     v.cov["evaluations"] += n
     return n
